@@ -77,7 +77,12 @@ class Stmt:
 
     def lenient(self):
         t, devs = to_lenient(self.text)
-        return self.prefix() + t, devs
+        pre = self.prefix()
+        if self.label and self.label.startswith("0"):
+            # fparser stores statement labels as integers
+            pre = pre.replace(self.label, self.label.lstrip("0") or "0", 1)
+            devs = devs + ["label-leading-zeros"]
+        return pre + t, devs
 
     def src_tokens(self):
         """[(text, cls)] of the source statement (label and construct name
